@@ -238,10 +238,12 @@ pub fn gen_value(rng: &mut Rng, cfg: &G1Cfg, depth: usize, in_coll: bool) -> MVa
             let mut v = Vec::with_capacity(n);
             let first = if depth > 0 && rng.chance(1, 4) { gen_coll(rng, cfg, depth) } else { gen_scalar(rng, cfg, in_coll) };
             v.push(first);
+            let mut retries = 0;
             while v.len() < n {
                 let e = if depth > 0 && rng.chance(1, 5) { gen_coll(rng, cfg, depth) } else { gen_scalar(rng, cfg, in_coll) };
-                if homogeneous && e.kind() != v[0].kind() {
-                    // retry cheaply: clone-shape of first with fresh content is not needed; accept after a few tries
+                if homogeneous && e.kind() != v[0].kind() && retries < 40 {
+                    // retry a few times for a same-kind element (bounded: a byte-driven rng may keep saying "retry")
+                    retries += 1;
                     if rng.chance(3, 4) {
                         continue;
                     }
